@@ -194,6 +194,10 @@ namespace detail{
   SU_vector EvaluationProxy<Op>::Evolve(const SU_vector& other ,double t) const{
     return(static_cast<SU_vector>(*this).Evolve(other,t));
   }
+  template<typename Op>
+  double EvaluationProxy<Op>::operator*(const SU_vector& other) const{
+    return(static_cast<SU_vector>(*this)*other);
+  }
   
   template<typename Op>
   SU_vector EvaluationProxy<Op>::operator-() const &{
